@@ -17,6 +17,16 @@ evaluated before any element is assigned, are kept even when the sides overlap")
      strided sections).  Reading only ``lower`` maps ``a(n:1:-1)`` like ``a(n:)``.
  R3  wiring: the loop bounds are taken from the left-hand-side range including
      its step, and the statement is rewritten before it is wrapped.
+ R4  distinct positions, distinct loop indices: ``_map_ranges_to_indices`` records
+     ``index_range_map[ivar] = dim``; an index variable taken from the loop map
+     must be tested for membership *as a key of that very map* before it is
+     re-used, and the colliding case must skip or pick a fresh variable.
+     Otherwise two positions of one array share a loop index (``a(:, :)`` with
+     equal extents is traversed along its diagonal) or two different ranges
+     mapped to one loop variable overwrite each other's bounds.
+ R5  ``flatten_arrays`` drops the subscript list ("whole array") only when every
+     subscript is the full range without stride: the predicate is evaluated over
+     the abstract subscripts {scalar, lower/upper/step present or absent}.
 Not decided: index arithmetic of shifts, explicit-dimension insertion / removal,
 zero-based shifting, flattening (all value-level).
 """
@@ -149,9 +159,125 @@ def run(ctx):
     ok = upd and loops and max(upd) < min(loops)
     (ctx.judge('R3', 'statement rewritten before wrapping') if ok else
      ctx.violation('R3', f'{CLS}.visit_Assignment:order', va.where, 'the statement is wrapped in loops before its sections are replaced'))
+    run_r45(ctx, T)
+
+
+class _AbsRange:
+    """abstract RangeIndex: equality on (lower, upper, step) like the real one's StrCompareMixin over its rendering"""
+    def __init__(self, children):
+        children = tuple(children) + (None,) * (3 - len(children))
+        self.lower, self.upper, self.step = children
+        self.start, self.stop = self.lower, self.upper
+        self.children = children
+
+    def __eq__(self, other):
+        return isinstance(other, _AbsRange) and self.children == other.children
+
+    def __hash__(self):
+        return hash(self.children)
+
+    def __repr__(self):
+        return ':'.join('' if c is None else str(c) for c in self.children)
+
+
+def run_r45(ctx, T):
+    import itertools
+    import types
+    from sa.miniev import ev_ext, run_function, Unknown
+    m = ctx.model
+    ctx.rule('R4', '_map_ranges_to_indices: a loop index taken from the loop map is checked against the keys of the map it is inserted into; '
+                   'the colliding branch continues or rebinds the index')
+    ctx.rule('R5', 'flatten_arrays.new_dims: subscripts are dropped only if all of them are full, unstrided ranges')
+    f = T.function('_map_ranges_to_indices')
+    if f is None:
+        raise AnalysisError(f'{CLS}._map_ranges_to_indices vanished')
+    n_ins = 0
+    cands = [(P.arg, v) for P in f.node.args.args for v in X.names_assigned_from(f.node, f'{P.arg}[')]
+    for lm, ivar in cands:
+        # insertions D[ivar] = ...
+        for st, guards in X.nodes_with_guards(f.node, lambda x: isinstance(x, ast.Assign)):
+            t = st.targets[0]
+            if not (isinstance(t, ast.Subscript) and isinstance(t.slice, ast.Name) and t.slice.id == ivar and isinstance(t.value, ast.Name)):
+                continue
+            D = t.value.id
+            n_ins += 1
+            tests = [i_ for i_ in ast.walk(f.node) if isinstance(i_, ast.If) and isinstance(i_.test, ast.Compare) and len(i_.test.ops) == 1
+                     and isinstance(i_.test.ops[0], ast.In) and ast.unparse(i_.test.left) == ivar
+                     and ast.unparse(i_.test.comparators[0]) in (D, f'{D}.keys()') and i_.lineno < st.lineno]
+            ok = False
+            for i_ in tests:
+                last = i_.body[-1]
+                rebinds = any(isinstance(b, ast.Assign) and any(isinstance(x, ast.Name) and x.id == ivar for x in b.targets) for b in i_.body)
+                if rebinds or isinstance(last, (ast.Continue, ast.Return, ast.Raise)):
+                    ok = True
+            inst = f'{CLS}._map_ranges_to_indices:{D}[<loop index>]'
+            if ok:
+                ctx.judge('R4', inst, facts={'guard': [ast.unparse(i_.test) for i_ in tests]})
+            else:
+                ctx.violation('R4', f'{CLS}._map_ranges_to_indices:index-collision-unchecked', f'{f.module.relpath}:{st.lineno}',
+                              f'`{ast.unparse(st)}` re-uses the loop index found in `{lm}` without testing `{ivar} in {D}` first: two '
+                              f'positions (or two different ranges mapped to the same loop variable) end up with one index and one range, '
+                              f'e.g. a(1:n, 1:n) = 0 is reduced to its diagonal')
+    ctx.floor('R4', 'insertions of a re-used loop index', n_ins, 1)
+    # ---- R5
+    fa = m.get_function('loki/transformations/array_indexing/array_indices.py', 'flatten_arrays')
+    inner = {n.name: n for n in fa.node.body if isinstance(n, ast.FunctionDef)}
+    nd = inner.get('new_dims')
+    if nd is None:
+        raise AnalysisError('flatten_arrays.new_dims vanished')
+    dpar = nd.args.args[0].arg
+    drop = next((s_ for s_ in X.body_nodoc(nd) if isinstance(s_, ast.If) and s_.body and isinstance(s_.body[-1], ast.Return)
+                 and isinstance(s_.body[-1].value, ast.Constant) and s_.body[-1].value.value is None), None)
+    if drop is None:
+        raise AnalysisError('flatten_arrays.new_dims: the branch dropping the subscripts (return None) was not found')
+    env0 = {'sym': types.SimpleNamespace(RangeIndex=_AbsRange), 'isinstance': isinstance, 'start_index': 1}
+    for nm, fn_ in inner.items():
+        if nm != 'new_dims':
+            def mk(fn_=fn_):
+                def call(*a):
+                    e2 = dict(env0)
+                    e2.update({p.arg: v for p, v in zip(fn_.args.args, a)})
+                    return run_function(fn_, e2)
+                return call
+            env0[nm] = mk()
+    subs = ['i'] + [_AbsRange(c) for c in itertools.product((None, 'l'), (None, 'u'), (None, 's'))]
+    rows = bad = 0
+    for k in (1, 2):
+        for dims in itertools.product(subs, repeat=k):
+            env = dict(env0)
+            env[dpar] = dims
+            try:
+                got = bool(ev_ext(drop.test, env))
+            except Unknown as u:
+                raise AnalysisError(f'flatten_arrays.new_dims: whole-array predicate uses `{u}`, outside the evaluated fragment')
+            want = all(isinstance(d, _AbsRange) and d.children == (None, None, None) for d in dims)
+            rows += 1
+            if got and not want:
+                bad += 1
+                ctx.violation('R5', 'flatten_arrays.new_dims:subscripts-dropped', f'{fa.module.relpath}:{drop.lineno}',
+                              f'`{ast.unparse(drop.test)}` holds for the subscripts ({", ".join(map(repr, dims))}) and the reference is '
+                              f'rewritten to the whole array: the section bounds / stride are lost')
+                break
+        if bad:
+            break
+    if not bad:
+        ctx.judge('R5', 'whole-array predicate', facts={'rows': rows})
+        ctx.floor('R5', 'subscript tuples evaluated', rows, 9)
 
 
 MUTANTS = [
+    Mutant('collision-test-on-values', FILE, "                    if ivar in index_range_map:", "                    if dim in index_range_map.values():",
+           expect=('R4', 'index-collision-unchecked')),
+    Mutant('neutral-collision-test-on-keys', FILE, "                    if ivar in index_range_map:", "                    if ivar in index_range_map.keys():",
+           expect=None),
+    Mutant('whole-array-ignores-stride', 'loki/transformations/array_indexing/array_indices.py',
+           "        if all(_dim == sym.RangeIndex((None, None)) for _dim in dim):",
+           "        if all(isinstance(_dim, sym.RangeIndex) and _dim.lower is None and _dim.upper is None for _dim in dim):",
+           expect=('R5', 'subscripts-dropped')),
+    Mutant('neutral-whole-array-explicit', 'loki/transformations/array_indexing/array_indices.py',
+           "        if all(_dim == sym.RangeIndex((None, None)) for _dim in dim):",
+           "        if all(_dim == sym.RangeIndex((None, None, None)) for _dim in dim):",
+           expect=None),
     # a repaired variant: refuse to resolve when the assigned array is read on the right-hand side
     Mutant('repair-overlap-guard', FILE,
            "        create_loops = kwargs.get('create_loops', True)\n",
